@@ -303,7 +303,7 @@ pub fn check_doc(c: &DocCase, obs: &mut Obs) -> Result<(), String> {
 pub fn property() -> Property {
     Property {
         id: "C14",
-        rule: "Documents of 0-30 lines joined by LF, final LF present or absent. Lines: file names of length 1, 2, 3-40 over arbitrary bytes (no LF), with leading blanks; each of the 18 commands with absent / blank / ASCII / UTF-8 / non-UTF-8 / trailing-blank arguments and 1-several blanks or tabs before the argument; unknown and malformed commands; blank lines (empty, spaces, tabs, CR, VT); raw random bytes. Oracle: M-plist line model (entry kind, argument bytes exactly, error kind) per line via PlistEntry::from_bytes, and the whole entry list of Plist::from_bytes (compared through the derived Debug rendering with the list the model builds from public enum constructors); a document with an invalid line must fail with the first failing line's error kind. Non-trivial = at least 3 non-blank lines including one of length <= 2 or a command with a non-ASCII argument. Distinct = distinct documents.",
+        rule: "Documents of 0-30 lines joined by LF, final LF present or absent. Lines: file names of length 1, 2, 3-40 over arbitrary bytes (no LF), with leading blanks; each of the 18 commands with absent / blank / ASCII / UTF-8 / non-UTF-8 / trailing-blank arguments and 1-several blanks or tabs before the argument; unknown and malformed commands; blank lines (empty, spaces, tabs, CR, VT); raw random bytes. Oracle: M-plist line model (entry kind, argument bytes exactly, error kind) per line via PlistEntry::from_bytes, and the whole entry list of Plist::from_bytes (compared through the derived Debug rendering with the list the model builds from public enum constructors); a document with an invalid line must fail with the first failing line's error kind. Non-trivial = at least 3 non-blank lines including one of length <= 2 or a command with a non-ASCII argument. Distinct = distinct documents. Generators also draw, at low weight, tokens from the source-literal dictionary (every string / byte / character literal of the library's own source, collected at build time and filtered by this domain's character class) (as arguments and file lines); strict arguments also end in, or contain, multi-byte characters cut short by 1-3 bytes, surrogates and overlong forms; lines starting with U+FEFF.",
         assumptions: vec![
             "bytes 0x85/0xA0 as the only non-ASCII-whitespace content of a line, and VT/FF/CR/0x85/0xA0 as the first byte of an argument, are outside the generated domain (the statement does not say whether they are white space)",
             "for '@option' with an argument other than 'preserve' any error kind is accepted",
